@@ -69,7 +69,9 @@ Record St := mkSt {
   st_ref : nat -> option (nat * bool * Pos)   (* CondSRF._krige_ref[name]: (krige_var object, mesh type, pos) *)
 }.
 
-Inductive CondKind := NewVals | NewPos | Refresh.
+(* set_condition(cond_val=...) / (cond_pos, cond_val, ...) / (cond_err=...) / ();  the measurement errors cond_err belong
+   to the conditions: a value given once stays until another one is given *)
+Inductive CondKind := NewVals | NewPos | NewErr | Refresh.
 Inductive Op :=
 | Call (p : option (Pos * bool)) (sd : option nat) (srk : bool) (ns : nat) (xd : nat)
                                      (* csrf(pos, seed, mesh_type, store=[name, raw name, raw kriging name or False],
@@ -294,7 +296,8 @@ Definition dec_op (r : list Z) : Op :=
   | 12 => KrigeCall ps
   | 13 => AssignPos q
   | 14 => ReassignModel
-  | _ => MutateCond
+  | 15 => MutateCond
+  | _ => SetCond NewErr
   end.
 
 Fixpoint trace_from (fx : Fix) (s : St) (ops : list Op) : list (list Z) :=
